@@ -552,6 +552,20 @@ impl<'a> G<'a> {
         }
     }
 
+    /// an integrity READ whose fragments are each confirmed in time (0.6 of the confirm timeout after they were
+    /// sent), the whole series taking longer than one confirm timeout: every fragment has its own deadline (S153)
+    fn slow_series(&mut self) {
+        let seq = self.next_seq();
+        self.line("@wf");
+        self.rx(1, OUTSTATION, vec![ctrl(seq), 1, 0x3c, 0x01, 0x06]);
+        let wait = self.cfg_ctimeout * 3 / 5;
+        for _ in 0..self.r.range(2, 4) {
+            self.line(&format!("tick {wait}"));
+            self.line("cfm sol 0 1");
+        }
+        self.last_note = None;
+    }
+
     fn confirm(&mut self) {
         let uns = self.r.chance(1, 2);
         let delta = match self.r.below(10) {
@@ -857,7 +871,7 @@ pub fn gen(thorough: bool, seed: u64, w: &mut dyn Write, gc: GenCfg) {
                     g.line(l)
                 }
                 96 => {
-                    if g.gc.with_db { g.line("cut") } else { g.select_script() }
+                    if g.gc.with_db && g.r.chance(1, 2) { g.slow_series() } else if g.gc.with_db { g.line("cut") } else { g.select_script() }
                 }
                 97 => {
                     let b = g.r.below(16);
